@@ -2,7 +2,6 @@ package filter
 
 import (
 	"github.com/mgtv-tech/redis-GunYu/pkg/redis"
-	"sort"
 )
 
 type Range struct {
@@ -47,20 +46,39 @@ func (rl *RangeList) IsSlotInList(key string) bool {
 	return false
 }
 
+// InsertSlotInList keeps the list sorted by Left and its ranges disjoint (overlapping and
+// adjacent ranges are merged) : IsSlotInList bisects the list, which is only correct
+// when no stored range reaches into a later one
 func (rl *RangeList) InsertSlotInList(left, right uint16) {
-	if left <= right {
-		newRange := &Range{Left: left, Right: right}
-		i := sort.Search(len(rl.list), func(i int) bool {
-			return rl.list[i].Left > left
-		})
-		rl.list = append(rl.list, nil)
-		copy(rl.list[i+1:], rl.list[i:])
-		rl.list[i] = newRange
-		if left < rl.minLeft {
-			rl.minLeft = left
-		}
-		if right > rl.maxRight {
-			rl.maxRight = right
+	if left > right {
+		return
+	}
+	merged := make([]*Range, 0, len(rl.list)+1)
+	newRange := &Range{Left: left, Right: right}
+	inserted := false
+	for _, r := range rl.list {
+		switch {
+		case uint32(r.Right)+1 < uint32(newRange.Left): // entirely before the new range
+			merged = append(merged, r)
+		case uint32(newRange.Right)+1 < uint32(r.Left): // entirely after the new range
+			if !inserted {
+				merged = append(merged, newRange)
+				inserted = true
+			}
+			merged = append(merged, r)
+		default: // overlapping or adjacent
+			if r.Left < newRange.Left {
+				newRange.Left = r.Left
+			}
+			if r.Right > newRange.Right {
+				newRange.Right = r.Right
+			}
 		}
 	}
+	if !inserted {
+		merged = append(merged, newRange)
+	}
+	rl.list = merged
+	rl.minLeft = merged[0].Left
+	rl.maxRight = merged[len(merged)-1].Right
 }
